@@ -338,8 +338,10 @@ async fn settle() {
     }
 }
 
-async fn observe(live: &mut Live, lines: &mut Vec<String>) {
-    settle().await;
+async fn observe(live: &mut Live, lines: &mut Vec<String>, let_manager_run: bool) {
+    if let_manager_run {
+        settle().await;
+    }
     let mut ats = Vec::new();
     let mut evs = Vec::new();
     while let Ok(event) = live.resp_rx.rx.try_recv() {
@@ -417,6 +419,7 @@ fn run() {
             let mut live: Option<Live> = None;
             for op in &case.ops {
                 lines.push("@".into());
+                let mut burst = false;
                 match op[0].as_str() {
                     "init" => {
                         live = Some(start(op[1].parse().unwrap(), op[2].parse().unwrap()));
@@ -428,6 +431,18 @@ fn run() {
                             let _ = l.req_tx.send(request(op));
                         }
                     }
+                    // part of a burst: sent without yielding, the manager task does not run before the
+                    // next op that does (it then finds all of them queued in one wake-up)
+                    "open+" | "cancel+" => {
+                        let l = live.as_mut().expect("init first");
+                        if l.status == "running" {
+                            let mut op2 = op.clone();
+                            op2[0] = op[0].trim_end_matches('+').to_string();
+                            l.client.scripts.lock().unwrap().push_back(parse_script(&op2));
+                            let _ = l.req_tx.send(request(&op2));
+                        }
+                        burst = true;
+                    }
                     "adv" => tokio::time::sleep(ticks(op[1].parse().unwrap())).await,
                     "jump" => tokio::time::advance(ticks(op[1].parse().unwrap())).await,
                     "shutdown" => {
@@ -436,7 +451,7 @@ fn run() {
                     }
                     other => panic!("bad op {other}"),
                 }
-                observe(live.as_mut().expect("init first"), lines).await;
+                observe(live.as_mut().expect("init first"), lines, !burst).await;
             }
         });
     });
@@ -567,13 +582,28 @@ fn generate(seed: u64, n_cases: usize, tier: &str) {
                 1 | 2 => g.rng.range(2, 10),
                 _ => g.rng.range(8, max_batch),
             };
+            // bursts: runs of requests sent without yielding, so the manager finds several of them
+            // (and possibly the instant responses of the first ones) in one wake-up
+            let bursty = g.rng.chance(50);
+            let mut open_burst = false;
             for _ in 0..batch {
-                let r = g.request(false);
+                let mut r = g.request(false);
+                open_burst = bursty && g.rng.chance(60);
+                if open_burst {
+                    r = r.replacen("open ", "open+ ", 1).replacen("cancel ", "cancel+ ", 1);
+                }
                 out.line(r);
                 if g.rng.chance(15) {
                     let dt = g.rng.range(0, 2);
                     out.line(format!("adv {dt}"));
+                    open_burst = false;
                 }
+            }
+            if open_burst {
+                // a burst ends at the instant it was sent: the manager takes the requests in before the
+                // clock moves (a `jump` right after a burst would move the intake, and with it every
+                // deadline, to the later instant)
+                out.line("adv 0");
             }
             if panic_case && round == rounds - 1 {
                 let r = g.request(true);
